@@ -161,6 +161,8 @@ def impl_path(path, mn, mx, rwl, form=None):
         return 'ValueError'
     except Exception as e:       # reported verbatim
         return type(e).__name__
+    if type(r) is not list:      # documented return type: a list (indexable, len(), iterable any number of times)
+        return 'not-a-list:%s' % type(r).__name__
     return enc_segs(r)
 
 
@@ -172,6 +174,8 @@ def impl_commas(value, form=None):
         return 'ValueError'
     except Exception as e:
         return type(e).__name__
+    if type(r) is not list:
+        return 'not-a-list:%s' % type(r).__name__
     if not all(isinstance(x, str) for x in r):
         return 'non-str-items:%r' % (r,)
     return 'ok:' + ','.join(hexs(x) for x in r)
@@ -1051,6 +1055,7 @@ def search(ctx, seeds, full=False):
 
     shrink_budget = [60.0]       # seconds of wall clock spent on shrinking, over the whole search
     history = [0]                # single-call failures that did not reproduce in a fresh interpreter
+    examined = [0]               # failing single-call cases shrunk + confirmed so far (each costs a fresh interpreter)
 
     form_counter = [0]
 
@@ -1064,6 +1069,11 @@ def search(ctx, seeds, full=False):
         why = oracle(case)
         if not why:
             return
+        # bounded work per failing run: enough distinct failures already, or the confirmation budget is used up
+        if examined[0] >= 25 or (len(fails) >= 3 and shrink_budget[0] <= 0):
+            ctx.count('search/further-failing-cases-not-examined')
+            return
+        examined[0] += 1
         small = case
         if shrink_budget[0] > 0:
             t0 = time.time()
